@@ -263,7 +263,7 @@ theorem deliverMany_shape (out : List Sid) (l : List (List Sid × Outcome)) : sh
 def RespFires (cfg : Cfg) (b : Batch) (r : ProdRes) (obs : List Ob) : Prop :=
   ∀ s o, Ob.fire s o ∈ obs →
     (∃ resp, o = .ok resp ∧ resp ∈ respsOf r ∧ resp.error = 0 ∧ s ∈ b.sidsOf resp.tp) ∨
-    (o = .okNone ∧ cfg.acks = producerAckNotRequired ∧ (r = .none ∨ r = .responses []) ∧ s ∈ b.allSids) ∨
+    (o = .okNone ∧ cfg.acks = producerAckNotRequired ∧ s ∈ b.allSids) ∨
     (∃ k, o = .err k)
 
 /-- the batch after the acknowledged payloads of `r` were popped -/
@@ -281,7 +281,8 @@ inductive Handled (cfg : Cfg) (st : St) (b : Batch) (r : ProdRes) (st' : St) (ob
       shapeOf obs = [.setTimer st.nextTid st.interval] → Handled cfg st b r st' obs false
 
 theorem checkRetry_spec (cfg : Cfg) (st : St) (b : Batch) (f : List FailedP) (_hne : f ≠ []) :
-    (∀ s o, Ob.fire s o ∈ (checkRetry cfg st b f).2.1 → ∃ k, o = .err k) ∧
+    (∀ s o, Ob.fire s o ∈ (checkRetry cfg st b f).2.1 →
+      (∃ k, o = .err k) ∨ (o = .okNone ∧ cfg.acks = producerAckNotRequired ∧ s ∈ b.allSids)) ∧
     (((checkRetry cfg st b f).2.2 = true ∧ (checkRetry cfg st b f).1.phase = st.phase ∧
       (checkRetry cfg st b f).1.attempts = st.attempts ∧ (checkRetry cfg st b f).1.interval = st.interval ∧
       (checkRetry cfg st b f).1.nextTid = st.nextTid ∧ shapeOf (checkRetry cfg st b f).2.1 = []) ∨
@@ -295,12 +296,25 @@ theorem checkRetry_spec (cfg : Cfg) (st : St) (b : Batch) (f : List FailedP) (_h
   · exact ⟨fun s o h => by simp at h, Or.inl ⟨rfl, rfl, rfl, rfl, rfl, rfl⟩⟩
   · rename_i hs
     split
-    · refine ⟨?_, Or.inl ⟨rfl, rfl, rfl, rfl, rfl, deliverMany_shape _ _⟩⟩
-      intro s o h
-      obtain ⟨sids, h1, _⟩ := deliverMany_fires _ _ s o h
-      obtain ⟨x, _, hx⟩ := List.mem_map.mp h1
-      injection hx with _ ho
-      exact ⟨_, ho.symm⟩
+    · have e1 : ∀ s o, Ob.fire s o ∈ (deliverMany st.outstanding (f.map (fun f => (b.sidsOf f.tp, Outcome.err f.kind)))).2 →
+          ∃ k, o = .err k := by
+        intro s o h
+        obtain ⟨sids, h1, _⟩ := deliverMany_fires _ _ s o h
+        obtain ⟨x, _, hx⟩ := List.mem_map.mp h1
+        injection hx with _ ho
+        exact ⟨_, ho.symm⟩
+      split
+      · rename_i ha0
+        refine ⟨?_, Or.inl ⟨rfl, rfl, rfl, rfl, rfl, by rw [shapeOf_append, deliverMany_shape, deliver_shape]; rfl⟩⟩
+        intro s o h
+        rcases List.mem_append.mp h with h | h
+        · exact Or.inl (e1 s o h)
+        · obtain ⟨h1, h2⟩ := deliver_fires _ _ _ s o h
+          exact Or.inr ⟨h1, ha0, h2⟩
+      · refine ⟨?_, Or.inl ⟨rfl, rfl, rfl, rfl, rfl, by rw [List.append_nil]; exact deliverMany_shape _ _⟩⟩
+        intro s o h
+        rw [List.append_nil] at h
+        exact Or.inl (e1 s o h)
     · rename_i ha
       refine ⟨?_, Or.inr ⟨rfl, rfl, rfl, by omega, by simpa using hs, rfl, rfl, ?_⟩⟩
       · intro s o h; split at h <;> simp at h
@@ -313,7 +327,8 @@ open Afkak.Consts Afkak.Monitor.ProducerTrace
 
 theorem handleResults_spec (cfg : Cfg) (st : St) (b : Batch) (rs : List Resp) (fs : List FailedP) :
     (∀ s o, Ob.fire s o ∈ (handleResults cfg st b rs fs).2.1 →
-      (∃ resp, o = .ok resp ∧ resp ∈ rs ∧ resp.error = 0 ∧ s ∈ b.sidsOf resp.tp) ∨ (∃ k, o = .err k)) ∧
+      (∃ resp, o = .ok resp ∧ resp ∈ rs ∧ resp.error = 0 ∧ s ∈ b.sidsOf resp.tp) ∨ (∃ k, o = .err k) ∨
+      (o = .okNone ∧ cfg.acks = producerAckNotRequired ∧ s ∈ b.allSids)) ∧
     (((handleResults cfg st b rs fs).2.2 = true ∧ (handleResults cfg st b rs fs).1.phase = st.phase ∧
       (handleResults cfg st b rs fs).1.attempts = st.attempts ∧ (handleResults cfg st b rs fs).1.interval = st.interval ∧
       (handleResults cfg st b rs fs).1.nextTid = st.nextTid ∧ shapeOf (handleResults cfg st b rs fs).2.1 = []) ∨
@@ -348,7 +363,9 @@ theorem handleResults_spec (cfg : Cfg) (st : St) (b : Batch) (rs : List Resp) (f
     · intro s o h
       rcases List.mem_append.mp h with h | h
       · exact Or.inl (good s o h)
-      · exact Or.inr (c1 s o h)
+      · rcases c1 s o h with hk | ⟨h1, h2, h3⟩
+        · exact Or.inr (Or.inl hk)
+        · exact Or.inr (Or.inr ⟨h1, h2, by simpa [Batch.popAcked, Batch.allSids] using h3⟩)
     · rcases c2 with ⟨d1, d2, d3, d4, d5, d6⟩ | ⟨d1, d2, d3, d4, d5, d6, d7, d8⟩
       · exact Or.inl ⟨d1, d2, d3, d4, d5, by rw [shapeOf_append, deliverMany_shape]; exact d6⟩
       · refine Or.inr ⟨d1, ?_, ?_, d3, d4, d5, d6, d7, by rw [shapeOf_append, deliverMany_shape]; exact d8⟩
@@ -387,7 +404,7 @@ theorem handleSendResponse_spec (cfg : Cfg) (st : St) (b : Batch) (r : ProdRes) 
     subst e1
     cases o' with
     | ok k => exact absurd rfl (h2 k)
-    | okNone => exact Or.inr (Or.inl ⟨rfl, (h1 rfl).1, (h1 rfl).2, e2⟩)
+    | okNone => exact Or.inr (Or.inl ⟨rfl, (h1 rfl).1, e2⟩)
     | okExc k => exact absurd rfl (h3 k)
     | err k => exact Or.inr (Or.inr ⟨k, rfl⟩)
   have res : ∀ rs fs, respsOf r = rs → (∀ live, failedTps live r = fs.map (·.tp) ++ (rs.filter (·.error ≠ 0)).map (·.tp)) →
@@ -397,9 +414,10 @@ theorem handleSendResponse_spec (cfg : Cfg) (st : St) (b : Batch) (r : ProdRes) 
     obtain ⟨h1, h2⟩ := handleResults_spec cfg st b rs fs
     refine ⟨?_, ?_⟩
     · intro s o hm
-      rcases h1 s o hm with ⟨resp, e1, e2, e3, e4⟩ | h
+      rcases h1 s o hm with ⟨resp, e1, e2, e3, e4⟩ | h | h
       · exact Or.inl ⟨resp, e1, by rw [hr]; exact e2, e3, e4⟩
       · exact Or.inr (Or.inr h)
+      · exact Or.inr (Or.inl h)
     · rcases h2 with ⟨d1, d2, d3, d4, d5, d6⟩ | ⟨d1, d2, d3, d4, d5, d6, d7, d8, d9⟩
       · rw [d1]; exact .resolved d2 d3 d4 d5 d6
       · rw [d1]
@@ -435,9 +453,10 @@ theorem handleSendResponse_spec (cfg : Cfg) (st : St) (b : Batch) (r : ProdRes) 
     · obtain ⟨h1, h2⟩ := handleResults_spec cfg st b [] (b.live.map (fun tp => ⟨tp, k, true⟩))
       refine ⟨?_, ?_⟩
       · intro s o hm
-        rcases h1 s o hm with ⟨resp, _, e2, _, _⟩ | h
+        rcases h1 s o hm with ⟨resp, _, e2, _, _⟩ | h | h
         · cases e2
         · exact Or.inr (Or.inr h)
+        · exact Or.inr (Or.inl h)
       · have hp : b.popAcked (respsOf (.err k)) = b := by
           cases b; simp [Batch.popAcked, respsOf]
         rcases h2 with ⟨d1, d2, d3, d4, d5, d6⟩ | ⟨d1, d2, d3, d4, d5, d6, d7, d8, d9⟩
